@@ -57,7 +57,7 @@ def handleIncr (args : List Sexp) : String :=
     match Oracles.ofSexp o, Query.ofSexp q, fileOfSexp j, fileOfSexp f with
     | some o, some q, some j, some f =>
       let idxO : Outcome JoinIndex := match q.join with
-        | some ji => loadJoinFile ji j
+        | some ji => setupJoin q.table ji (loadJoinFile ji j)
         | none => .ok []
       match idxO with
       | .ok idx =>
